@@ -91,3 +91,11 @@ P("C18", "exploration",
 P("C19", "model_checking",
   "every From<u8> conversion of all 256 bytes for command codes and message types and 0-5 for completion codes; distinct = distinct (enum, byte)",
   models=["MC_Layout"], families=["conv"], exhaustive_quick=True, exhaustive_thorough=True)
+
+# the committed finding scenarios are replayed by the checks of the properties they concern (regression:
+# a repaired defect that returns is reported again, an open one is matched against its recorded deviation)
+import json as _json, os as _os
+_kf = _json.load(open(_os.path.join(_os.path.dirname(_os.path.dirname(_os.path.abspath(__file__))), "known_findings.json")))
+for _f in _kf["findings"]:
+    for _p in _f["properties"]:
+        PLAN[_p].setdefault("scenarios", []).append(_f["scenario"])
